@@ -3,7 +3,8 @@
 //!   exraw cap  nsetup sig*  nacts (kind a b)*  nscript (op arg)*  nsched act*
 //! activity kinds: 1 delivery of signal a carrying marker b (the dispatcher is called on the
 //! activity's thread, as the kernel would), 2 the consumer running the script, 3 close(),
-//! 4 add_signal(a).  Script ops: 1 pending, 2 wait, 3 forever / SignalIterator::new,
+//! 4 add_signal(a), 5 a scanner: another thread draining the a-th of the batches handed out by
+//! `pending()` calls made during set-up (the consumer's own batches are numbered after them).  Script ops: 1 pending, 2 wait, 3 forever / SignalIterator::new,
 //! 4 Forever::next, 5 poll_signal with a non-blocking readiness callback (its presence selects the
 //! backend::SignalDelivery + OwningSignalIterator set-up the async adapters use), 6 one next() on
 //! the arg-th batch handed out so far, 7 drain that batch.
@@ -98,10 +99,11 @@ fn note(op: i64, arg: i64, res: i64) {
     sched::user_note(op, 0, arg, res);
 }
 
-fn bat_op<E: Exfiltrator>(batches: &mut Vec<Pending<E>>, op: i64, k: i64, conv: &dyn Fn(&E::Output) -> i64) {
+/// batch numbers in the script count the `off` set-up batches of the scanners first
+fn bat_op<E: Exfiltrator>(batches: &mut Vec<Pending<E>>, op: i64, k: i64, conv: &dyn Fn(&E::Output) -> i64, off: i64) {
     if op == 6 {
         note(33, k, 0);
-        match batches.get_mut(k as usize).and_then(|b| b.next()) {
+        match (if k >= off { batches.get_mut((k - off) as usize) } else { None }).and_then(|b| b.next()) {
             Some(v) => note(34, 1, conv(&v)),
             None => note(34, 0, 0),
         }
@@ -109,7 +111,7 @@ fn bat_op<E: Exfiltrator>(batches: &mut Vec<Pending<E>>, op: i64, k: i64, conv: 
         note(33, 1000 + k, 0);
         // a batch can hold at most MAX_SIGNUM * 5 records; more means next() never ends
         for round in 0..700 {
-            match batches.get_mut(k as usize).and_then(|b| b.next()) {
+            match (if k >= off { batches.get_mut((k - off) as usize) } else { None }).and_then(|b| b.next()) {
                 Some(v) => note(34, 1, conv(&v)),
                 None => {
                     note(34, 0, 0);
@@ -123,9 +125,32 @@ fn bat_op<E: Exfiltrator>(batches: &mut Vec<Pending<E>>, op: i64, k: i64, conv: 
     }
 }
 
+/// Another thread draining a batch it was handed (activity kind 5).
+fn scanner<E: Exfiltrator + 'static>(mut b: Pending<E>, k: i64, conv: Box<dyn Fn(&E::Output) -> i64 + Send>) -> Activity
+where
+    Pending<E>: Send,
+{
+    Box::new(move || {
+        note(33, 1000 + k, 0);
+        for round in 0..700 {
+            match b.next() {
+                Some(v) => note(34, 1, conv(&v)),
+                None => {
+                    note(34, 0, 0);
+                    break;
+                }
+            }
+            if round == 699 {
+                note(95, k, 0);
+            }
+        }
+    })
+}
+
 /// The synchronous front end: SignalsInfo::{pending, wait, forever} + Forever::next.
-fn script_sync<E: Exfiltrator>(signals: &mut SignalsInfo<E>, script: &[(i64, i64)], conv: &dyn Fn(&E::Output) -> i64) {
+fn script_sync<E: Exfiltrator>(signals: &mut SignalsInfo<E>, script: &[(i64, i64)], conv: &dyn Fn(&E::Output) -> i64, nscan: i64) {
     let mut batches: Vec<Pending<E>> = Vec::new();
+
     let mut i = 0;
     while i < script.len() {
         let (op, arg) = script[i];
@@ -157,13 +182,13 @@ fn script_sync<E: Exfiltrator>(signals: &mut SignalsInfo<E>, script: &[(i64, i64
                                 None => note(32, 5, 0),
                             }
                         }
-                        6 | 7 => bat_op(&mut batches, op2, arg2, conv),
+                        6 | 7 => bat_op(&mut batches, op2, arg2, conv, nscan),
                         _ => break,
                     }
                     i += 1;
                 }
             }
-            6 | 7 => bat_op(&mut batches, op, arg, conv),
+            6 | 7 => bat_op(&mut batches, op, arg, conv, nscan),
             _ => note(96, op, 0),
         }
     }
@@ -199,7 +224,7 @@ fn script_async(delivery: SignalDelivery<UnixStream, SignalOnly>, script: &[(i64
                     PollResult::Err(_) => note(32, 9, 0),
                 }
             }
-            6 | 7 => bat_op(&mut batches, op, arg, &conv),
+            6 | 7 => bat_op(&mut batches, op, arg, &conv, 0),
             _ => note(96, op, 0),
         }
     }
@@ -230,6 +255,8 @@ fn run_scenario(sc: Scenario) -> String {
     let mut acts: Vec<Activity> = Vec::new();
     let handle: Handle;
     let mut consumer: Option<Activity> = None;
+    let nscan = sc.acts.iter().filter(|a| a.0 == 5).count() as i64;
+    let mut scanners: Vec<Option<Activity>> = Vec::new();
     if is_async {
         let (read, write) = UnixStream::pair().unwrap();
         let mut delivery = SignalDelivery::with_pipe(read, write, SignalOnly, sc.setup.iter()).unwrap();
@@ -259,11 +286,15 @@ fn run_scenario(sc: Scenario) -> String {
         handle = signals.handle();
         let _ = handle.is_closed();
         let _ = signals.pending().next();
+        for k in 0..nscan {
+            let conv = |v: &libc::siginfo_t| { let (sg, m) = check_info(v); if m < 0 { -1 } else { sg as i64 * 1_000_000 + m } };
+            scanners.push(Some(scanner(signals.pending(), k, Box::new(conv))));
+        }
         let script = sc.script.clone();
         let fd = final_drain.clone();
         consumer = Some(Box::new(move || {
             let conv = |v: &libc::siginfo_t| { let (sg, m) = check_info(v); if m < 0 { -1 } else { sg as i64 * 1_000_000 + m } };
-            script_sync(&mut signals, &script, &conv);
+            script_sync(&mut signals, &script, &conv, nscan);
             *fd.lock().unwrap() = Some(Box::new(move || signals.pending().take(700).map(|v| conv(&v)).collect()));
         }));
     } else {
@@ -271,11 +302,14 @@ fn run_scenario(sc: Scenario) -> String {
         handle = signals.handle();
         let _ = handle.is_closed();
         let _ = signals.pending().next();
+        for k in 0..nscan {
+            scanners.push(Some(scanner(signals.pending(), k, Box::new(|v: &libc::c_int| *v as i64))));
+        }
         let script = sc.script.clone();
         let fd = final_drain.clone();
         consumer = Some(Box::new(move || {
             let conv = |v: &libc::c_int| *v as i64;
-            script_sync(&mut signals, &script, &conv);
+            script_sync(&mut signals, &script, &conv, nscan);
             *fd.lock().unwrap() = Some(Box::new(move || signals.pending().take(700).map(|v| v as i64).collect()));
         }));
     }
@@ -289,6 +323,7 @@ fn run_scenario(sc: Scenario) -> String {
                 h.close();
                 note(32, 10, 0);
             }),
+            5 => scanners.get_mut(a as usize).and_then(|s| s.take()).unwrap_or_else(|| Box::new(|| {})),
             _ => Box::new(move || {
                 note(30, 11, a);
                 let r = h.add_signal(a as i32);
